@@ -45,7 +45,8 @@ type Profile struct {
 	IntArithOnOutputs bool
 	// RichInput adds generated input fields (bounds, defaults, nested objects, maps).
 	RichInput bool
-	// ClosedRefs allows references to closed.result (open finding K14 when never-ending steps exist).
+	// ClosedRefs allows references to closed.result and crashed.error (open finding K14 when
+	// never-ending steps exist: both stay pending for a step that is stuck waiting for input).
 	ClosedRefs bool
 	// LiteralEnabled allows `enabled: true|false` literals (known finding K11).
 	LiteralEnabled bool
@@ -298,11 +299,15 @@ func (g *genCtx) addStepSources(s *Step, outcome string) {
 			}
 			if g.p.StructFieldRefs {
 				g.srcs = append(g.srcs,
-					source{expr: out("crashed", "error", "output"), typ: "string", engine: true, structField: true},
 					source{expr: out("deploy_failed", "error", "error"), typ: "string", engine: true, structField: true},
-					source{expr: out("crashed", "error"), typ: "obj", engine: true, structField: true},
 					source{expr: out("deploy_failed", "error"), typ: "obj", engine: true, structField: true},
 				)
+				if g.p.ClosedRefs {
+					g.srcs = append(g.srcs,
+						source{expr: out("crashed", "error", "output"), typ: "string", engine: true, structField: true},
+						source{expr: out("crashed", "error"), typ: "obj", engine: true, structField: true},
+					)
+				}
 			} else {
 				g.excl["K2:ref-to-struct-output"]++
 			}
@@ -313,11 +318,15 @@ func (g *genCtx) addStepSources(s *Step, outcome string) {
 			source{expr: &Expr{K: "stage", Step: id, Stage: "outputs"}, typ: "stage"},
 		)
 		if g.p.EngineOuts {
-			g.srcs = append(g.srcs,
-				source{expr: out("failed", "error"), typ: "obj", engine: true},
-				source{expr: &Expr{K: "stage", Step: id, Stage: "failed"}, typ: "stage", engine: true},
-				source{expr: out("enabling", "resolved", "enabled"), typ: "bool", engine: true},
-			)
+			g.srcs = append(g.srcs, source{expr: out("enabling", "resolved", "enabled"), typ: "bool", engine: true})
+			if g.p.ClosedRefs {
+				g.srcs = append(g.srcs,
+					source{expr: out("failed", "error"), typ: "obj", engine: true},
+					source{expr: &Expr{K: "stage", Step: id, Stage: "failed"}, typ: "stage", engine: true},
+				)
+			} else {
+				g.excl["K14:ref-to-closed-result"]++
+			}
 		}
 	}
 }
